@@ -63,6 +63,15 @@ Cur(st)       == st.frames[Len(st.frames)]
 SetCur(st, f) == [st EXCEPT !.frames[Len(st.frames)] = f]
 Kill(st, why) == [st EXCEPT !.dead = IF @ = "" THEN why ELSE @, !.frozen = TRUE]
 Feed(st, id, v) == SetCur(st, [Cur(st) EXCEPT !.acc[id] = Append(@, v)])
+ItemById(lvl, id) == lvl.named[CHOOSE k \in DOMAIN lvl.named : lvl.named[k].id = id]
+BadValue(it, v) == (it.vt = "int" /\ ~IsInt(v)) \/ (it.guard /\ v = GuardBad)
+\* an argument receives a value.  `fallback` evaluates its argument on a copy of the ledger and
+\* drops the copy when the value is invalid, so the offending items stay where they were typed
+\* (in front of any later command name); every other arity keeps them consumed.
+FeedArg(st, id, v) ==
+  LET it == ItemById(Cur(st).lvl, id)
+      stays == it.arity \in {"fallback", "fallback_with"} /\ Cur(st).acc[id] = <<>> /\ BadValue(it, v) IN
+  Feed(IF stays THEN [st EXCEPT !.frozen = TRUE] ELSE st, id, v)
 PushPos(st, w, after) == SetCur(st, [Cur(st) EXCEPT !.pos = Append(@, [w |-> w, after |-> after])])
 
 \* a name that an enclosing level declares, typed to the right of a subcommand name: the
@@ -89,7 +98,7 @@ StepAttached(st0, n, v) ==
   ELSE LET it  == lvl.named[CHOOSE k \in own : TRUE]
            dup == SingleUse(it) /\ Len(Cur(st).acc[it.id]) >= 1
            st1 == IF dup THEN [st EXCEPT !.frozen = TRUE] ELSE st IN
-       IF it.kind = "arg" THEN Feed(st1, it.id, v)
+       IF it.kind = "arg" THEN FeedArg(st1, it.id, v)
        ELSE Kill(Feed(st1, it.id, "U"), "unexpected")   \* a flag does not take a value
 
 StepWord(st, w) ==
@@ -129,7 +138,7 @@ Plain(st, e) ==
 Step(st, e) ==
   IF st.posOnly THEN PushPos(st, e.txt, TRUE)
   ELSE IF st.pending # ""
-       THEN IF e.t = "word" THEN Feed([st EXCEPT !.pending = ""], st.pending, e.s)
+       THEN IF e.t = "word" THEN FeedArg([st EXCEPT !.pending = ""], st.pending, e.s)
             ELSE Plain(Kill([st EXCEPT !.pending = ""], "noarg"), e)
        ELSE Plain(st, e)
 
@@ -273,8 +282,10 @@ Alphabet(def) ==
   UNION {UNION {LeafItems(def, l.named[k]) : k \in DOMAIN l.named} : l \in AllLevels(def)}
   \cup (IF A.clusters THEN UNION {ClusterItems(def, l) : l \in AllLevels(def)} ELSE {})
   \cup {[t |-> "word", s |-> w, txt |-> w] : w \in RangeOf(A.words) \cup CmdNames(def)}
-  \cup {[t |-> x, s |-> "", txt |-> (CASE x = "dd" -> "--" [] x = "help" -> "--help"
-                                       [] x = "ver" -> "--version" [] x = "unk" -> "--zz")] : x \in RangeOf(A.extras)}
+  \cup {[t |-> (CASE x = "helpshort" -> "help" [] x = "vershort" -> "ver" [] x = "unkshort" -> "unk" [] OTHER -> x),
+         s |-> "", txt |-> (CASE x = "dd" -> "--" [] x = "help" -> "--help" [] x = "helpshort" -> "-h"
+                              [] x = "ver" -> "--version" [] x = "vershort" -> "-V"
+                              [] x = "unk" -> "--zz" [] x = "unkshort" -> "-Z")] : x \in RangeOf(A.extras)}
 
 (* ------------------------------------------------------------------ state machine *)
 VARIABLES def, env, line, st
